@@ -107,7 +107,7 @@ def search(ck, binpath, n, threads, reps):
                      {"seed": ck.seed, "stderr": err[-2000:], "stdout": out[-500:]})
         return
     got = False
-    for l in out.splitlines():
+    for l in jlines(out):
         if not l.strip():
             continue
         v = json.loads(l)
@@ -134,7 +134,7 @@ def corpus_seeds(ck, binpath):
         if rc != 0:
             ck.violation("crash-concurrent", "harness c38 exited with status %s on corpus seed %s" % (rc, seed), {"seed": seed, "stderr": err[-1500:]})
             continue
-        for l in out.splitlines():
+        for l in jlines(out):
             try:
                 v = json.loads(l)
             except ValueError:
@@ -151,7 +151,7 @@ def replay(ck, binpath, path):
         c = v["case"]
         rc, out, err = ck.run_bin(binpath, ["one", "--seed", c.get("seed", 1), "--threads", c.get("threads") or 8, "--reps", 20,
                                             "--std", 1 if c.get("use_std") else 0], timeout=1200)
-        for l in out.splitlines():
+        for l in jlines(out):
             try:
                 vv = json.loads(l)
             except ValueError:
